@@ -24,7 +24,6 @@
 static void keyword_contract(struct token *tok)
 REQUIRES(PRE_KW)
 __CPROVER_assigns(tok->kind, tok->lit)
-__CPROVER_frees(tok->lit)
 ENSURES(POST_KWB);
 
 void
